@@ -3310,10 +3310,12 @@ Octagonal_Shape<T>::simplify_using_context_assign(const Octagonal_Shape& y) {
   // Filter away the case where `x' contains `y'
   // (this subsumes the case when `y' is empty).
   if (x.contains(y)) {
+    // The intersection is `y' itself: it is empty only if `y' is
+    // (to be tested before modifying `x', which may be `y' itself).
+    const bool y_is_empty = y.marked_empty();
     Octagonal_Shape<T> res(dim, UNIVERSE);
     x.m_swap(res);
-    // The intersection is `y' itself: it is empty only if `y' is.
-    return !y.marked_empty();
+    return !y_is_empty;
   }
 
   // Filter away the case where `x' is empty.
